@@ -1,5 +1,13 @@
 #!/bin/bash
-# maintainer helper: re-record the assumption allow-list for every claimed property and regenerate the manifest
+# maintainer helper: re-record the assumption allow-list for every claimed property, regenerate the manifest,
+# and say loudly if any check is not OK on the current tree (never commit in that state)
 cd /verif
-for p in $(python3 -c "import sys; sys.path.insert(0,'tools'); import props; print(' '.join(sorted(props.PROPS)))"); do ./check $p --bless | tail -1; done
+bad=0
+for p in $(python3 -c "import sys; sys.path.insert(0,'tools'); import props; print(' '.join(sorted(props.PROPS)))"); do
+  out=$(./check $p --bless | tail -1)
+  echo "$out"
+  case "$out" in OK*) ;; *) bad=1; echo "!!!!!!!! NOT OK: $p" ;; esac
+done
 python3 tools/gen_manifest.py
+if [ $bad -ne 0 ]; then echo "!!!!!!!! SOME CHECK IS NOT OK ON THE CURRENT TREE — DO NOT COMMIT"; exit 1; fi
+echo "ALL CHECKS OK"
